@@ -3,7 +3,7 @@ and the Rust values dumped by the harness (harness/src/c06.rs: dump_params / dum
 import os
 import re
 
-from vlib.common import COQ, coq_hex, f64_of_hex, frac_of_hex, run_interval_cases
+from vlib.common import COQ, coq_hex, coq_q, f64_of_hex, frac_of_hex, run_interval_cases
 
 REAL_FIELDS = ["L", "phi_s", "phi_i", "theta_s", "theta_i", "theta_s_e", "theta_i_e", "wsx", "wsy", "wix", "wiy", "wpx", "wpy",
                "z0s", "z0i", "dirz_s", "dirz_i", "omega_s", "omega_i", "n_p", "n_s", "n_i", "rho", "k_eff",
@@ -123,3 +123,99 @@ def integrand_cases(ctx, name, pts, per_point_z, tol="1e-9"):
             meta[cid] = (key, zi)
     res = run_interval_cases(ctx, name, IMPORTS, goals, shards=min(16, max(1, len(goals))), timeout=1500, setup=setup)
     return {cid: (res.get(cid, False), meta[cid]) for cid, _, _ in goals}
+
+
+# ------------------------------------------------------------------------------------------------ singles (Gen/PMSingles.v; for C08)
+def singles_defs():
+    gen = open(os.path.join(COQ, "Gen", "PMSingles.v")).read()
+    defs = re.findall(r"^Definition (pms_\w+) \(p : pm_params\)( \(z1 z2 : R\))? : (R|C) :=\n  (.*)\.$", gen, re.M)
+    m = re.search(r"Definition pms_integrand_lets : list string :=\n  \[(.*?)\]", gen, re.S)
+    lets = [x.strip().strip('"') for x in m.group(1).split(";")]
+    return [(d[0], bool(d[1]), d[2], d[3]) for d in defs if d[0][4:] in lets or d[0] == "pms_integrand"]
+
+
+SINGLES_IMPORTS = ("From Coquelicot Require Import Coquelicot.\n"
+                   "From SpdVerif Require Import Base.Rx Base.CxPM Model.PMParams Gen.PMSingles Proofs.PMCaseTac.\n")
+
+
+def singles_cases(ctx, name, obs, tol="1e-9", limit=None):
+    """obs: output of `vharness c05 singles seed n`.  One Coq goal per setup:
+       | 1/4 * Cmod (sum_k w_k * pms_integrand P z1_k z2_k) - rust value | <= tol * value   with the 4 Gauss-Legendre(2) nodes.
+    Returns {case_id: (ok, observation)}"""
+    from fractions import Fraction
+    gl = [o for o in obs if o["kind"] == "gl2"]
+    pts = [o for o in obs if o["kind"] == "sgl"]
+    if not gl or not pts:
+        return {}
+    nodes, weights = gl[0]["nodes"], gl[0]["weights"]
+    defs = singles_defs()
+    cdefs = [d for d in defs if d[2] == "C"]
+    rnames = [d[0] for d in defs if d[2] == "R"]
+    cn = [c[0] for c in cdefs]
+    zdefs = [c for c in cdefs if c[1]]
+    last = {}
+    for i, (n, hz, _, body) in enumerate(zdefs):
+        for m in re.findall(r"\((pms_\w+) p", body):
+            if m in cn and [c for c in cdefs if c[0] == m][0][1]:
+                last[m] = i
+    goals, meta, setup = [], {}, ""
+    for k, o in enumerate(pts[:limit] if limit else pts):
+        p = o["p"]
+        from vlib.common import is_finite_hex
+        if not all(is_finite_hex(p[f]) for f in REAL_FIELDS if f in p) or not is_finite_hex(o["gl2"]):
+            continue
+        P = f"S{k}"
+        # apodization weight: the affine function through the dumped values at the two distinct node coordinates
+        zs = [frac_of_hex(z) for z in o["zs"]]
+        av = [frac_of_hex(a) for a in p["apod"]]
+        if len(zs) == 2 and zs[0] != zs[1]:
+            c1 = (av[1] - av[0]) / (zs[1] - zs[0])
+            c0 = av[0] - c1 * zs[0]
+            apod = f"fun z => {coq_q(c0)} + {coq_q(c1)} * z"
+        else:
+            apod = f"fun _ => {coq_q(av[0])}"
+        fs = [f"p_{f} := {coq_hex(p[f]) if f in p else '1'}" for f in REAL_FIELDS]
+        fs += [f"p_apod := {apod}", f"p_pp_on := {'true' if p['pp_on'] else 'false'}"]
+        setup += f"Definition {P} : pm_params := {{| {'; '.join(fs)} |}}.\n"
+        setup += (f"Ltac rn_{P} e := let e1 := eval unfold {', '.join(reversed(rnames))} in e in "
+                  f"let e2 := eval cbn beta iota delta [{P} {PROJ}] in e1 in e2.\n")
+        steps = sign_tactic(P, p)
+        for n, hz, _, _ in cdefs:
+            if not hz:
+                steps.append(f"pm_enc rn_{P} ({n} {P})")
+        terms_re, terms_im = [], []
+        for (z1, z2), w in zip(nodes, weights):
+            a, b, wq = coq_hex(z1), coq_hex(z2), coq_hex(w)
+            for i, (n, hz, _, _) in enumerate(zdefs):
+                steps.append(f"pm_enc rn_{P} ({n} {P} {a} {b})")
+                for m, j in last.items():
+                    if j == i:
+                        steps.append(f"pm_forget ({m} {P} {a} {b})")
+            terms_re.append(f"{wq} * fst (pms_integrand {P} {a} {b})")
+            terms_im.append(f"{wq} * snd (pms_integrand {P} {a} {b})")
+        v = coq_hex(o["gl2"])
+        goal = (f"Rabs (0.25 * sqrt (({' + '.join(terms_re)}) ^ 2 + ({' + '.join(terms_im)}) ^ 2) - {v}) <= {tol} * {v}")
+        steps.append("interval with (i_prec 100)")
+        cid = f"s{k}"
+        goals.append((cid, goal, "; ".join(steps)))
+        meta[cid] = o
+    res = run_interval_cases(ctx, name, SINGLES_IMPORTS, goals, shards=min(16, max(1, len(goals))), timeout=2400, setup=setup)
+    return {cid: (res.get(cid, False), meta[cid]) for cid, _, _ in goals}
+
+
+def singles_correspondence(ctx, binp, n=1, seed=None):
+    """for props/c08.py: run `vharness c05 singles`, check the generated singles model (Gen/PMSingles.v) against
+    phasematch_singles_fiber_coupling with the 4-node Gauss-Legendre rule (about 7 CPU-minutes per case, one shard each).
+    Registers a found_input=False violation per disagreeing case; returns the number of cases closed."""
+    from vlib.common import run_harness
+    obs = run_harness(ctx, binp, ["c05", "singles", ctx.seed if seed is None else seed, n], timeout=600)
+    res = singles_cases(ctx, "PM_singles", obs)
+    ok = 0
+    for cid, (good, o) in res.items():
+        if good:
+            ok += 1
+        else:
+            ctx.violation("S4", f"generated singles integrand (Gen/PMSingles.v) and phasematch_singles_fiber_coupling disagree (or the case could not "
+                          f"be evaluated) at case {cid}", {"kind": "model_mismatch", "what": "singles_integrand"},
+                          {"setup": o["setup"], "p": o["p"], "rust_gl2": f64_of_hex(o["gl2"])}, found_input=False)
+    return ok
